@@ -223,6 +223,11 @@ impl<'a> AnyCache<'a> {
     #[cfg(feature = "hot-reloading")]
     pub(crate) fn reload_untyped(self, id: SharedString, typ: Type) -> Option<Dependencies> {
         let handle = self.get_cached_untyped(&id, typ)?;
+        // Values that are not meant to be reloaded (eg added with
+        // `get_or_insert`) are left untouched
+        if !handle.is_dynamic() {
+            return None;
+        }
 
         let load_asset = || (typ.inner.load)(self, id);
         let (entry, deps) = if let Some(reloader) = self.reloader() {
@@ -402,7 +407,8 @@ pub(crate) trait CacheExt: Cache {
     #[cold]
     fn add_any<T: Storable>(&self, id: &str, asset: T) -> &UntypedHandle {
         let id = SharedString::from(id);
-        let entry = CacheEntry::new(asset, id, || self._has_reloader());
+        // Values added this way are never reloaded
+        let entry = CacheEntry::new(asset, id, || false);
 
         self.insert(entry)
     }
